@@ -126,7 +126,8 @@ def walk (c : Codec V) (dom : String) : List (Item V) → List String → Region
         | none => "bad unreachable"
     else
       -- an emptied BTreeMap (root node still allocated) panics on an inverted range, see the model
-      let emptiedMapPanic := impl == "panic" && m.isEmpty && name == "mi" && items.isEmpty
+      let inverted := match mop with | .markInterval st e n => decide (e + (n : Int) < st) | _ => false
+      let emptiedMapPanic := impl == "panic" && inverted && mstr == "" && items.isEmpty
       if emptiedMapPanic then s!"ok {dom} modelonly panic-emptied-map"
       else if impl != mstr then s!"diff class={dom}-{name}-nopre step={k} model={mstr} impl={impl}"
       else match mres with
